@@ -35,12 +35,22 @@ B(size, fsize, usize, b1, b2) == [size |-> size, fsize |-> fsize, usize |-> usiz
 UseQA   == {1, 2, 3, 5, 7, 8, 10, 11}
 BootsQA == {B(2, 1, 9, 2, 9), B(4, 3, 9, 2, 9)}
 \* quick B: confidential spends, deposits, refused submissions, small pool
-UseQB   == {1, 2, 7, 9, 13, 15, 16, 17, 18}
-BootsQB == {B(1, 1, 9, 2, 1), B(2, 3, 1, 2, 1)}
+UseQB   == {1, 9, 15, 16, 17, 18}
+BootsQB == {B(2, 3, 2, 2, 1)}
 \* quick C: draining foreign transaction, nonce-too-high on recheck
-UseQC   == {1, 2, 3, 4, 6, 10}
-BootsQC == {B(4, 3, 9, 3, 0), B(2, 1, 9, 3, 9)}
+UseQC   == {1, 2, 3, 5, 6, 13}
+BootsQC == {B(4, 3, 9, 3, 2), B(1, 1, 9, 3, 2)}
 
+\* thorough A: account transactions, two senders, conflicting and low-fee variants
+UseTA   == {1, 2, 3, 4, 5, 7, 8, 10, 11}
+BootsTA == {B(2, 1, 9, 3, 9), B(4, 3, 9, 2, 9)}
+\* thorough B: confidential spends (conflicting, low fee), deposits, tiny pools, UTXOSize 1 and 2
+UseTB   == {1, 2, 7, 9, 15, 16, 17, 18, 19}
+BootsTB == {B(1, 1, 9, 2, 1), B(2, 3, 1, 2, 1), B(2, 1, 2, 2, 9)}
+\* thorough C: draining foreign transactions, recheck moving transactions back, refused submissions
+UseTC   == {1, 2, 3, 4, 5, 6, 10, 13, 14}
+BootsTC == {B(4, 3, 9, 3, 2), B(2, 1, 9, 3, 2), B(4, 1, 9, 3, 0)}
+\* thorough D: the whole table, every configuration, short behaviours
 UseAll   == 1..19
 BootsAll == {B(1, 1, 9, 2, 9), B(2, 1, 9, 3, 1), B(2, 3, 1, 2, 9), B(4, 3, 9, 3, 9), B(4, 1, 2, 0, 2)}
 
